@@ -106,11 +106,11 @@ func selfTest(c *core.Ctx, recs []*rec, syns []*synCase) (map[string]any, error)
 	}
 	rejected := map[int]string{}
 	_, err := tlc.Run(tlc.Opts{SpecDir: specDir(c), Module: "C19",
-		Cfg:     fmt.Sprintf("CONSTANTS\n OpenDev = %s\n Fuel = 300\nINIT Init\nNEXT Next\nINVARIANT Check\nCHECK_DEADLOCK FALSE\n", core.TLASet(c.Findings.OpenIDs())),
+		Cfg:     tlcCfg(c),
 		Workers: c.Workers, Files: map[string][]byte{"trace.ndjson": buf.Bytes()}, Timeout: 30 * time.Minute, HeapMB: 8000},
 		func(p []byte) {
 			var v verdict
-			if json.Unmarshal(p, &v) == nil {
+			if json.Unmarshal(p, &v) == nil && v.Status != "strict" {
 				rejected[v.ID] = v.Status
 			}
 		})
